@@ -449,14 +449,14 @@ Proof.
 Qed.
 
 Lemma sem_push hash E Ib Id w y : 96 <= w <= 127 ->
-  sem hash E Ib Id w y =
+  sem spec_op hash E Ib Id w y =
   YNext (mkY (y_pc y + (w - 95) + 1) (bigend (mread (byte_at Ib) (y_pc y + 1) (w - 95)) :: y_s y) (y_m y) (y_i y)).
 Proof.
   intros H. unfold sem. destruct (range_arith_env w ltac:(lia)) as [-> ->]. noteq w.
   destruct (Z.leb_spec 96 w); [|lia]. destruct (Z.leb_spec w 127); [|lia]. reflexivity.
 Qed.
 Lemma sem_dup hash E Ib Id w y : 128 <= w <= 143 ->
-  sem hash E Ib Id w y =
+  sem spec_op hash E Ib Id w y =
   YNext (mkY (y_pc y + 1) (nth (Z.to_nat (w - 128)) (y_s y) 0 :: y_s y) (y_m y) (y_i y)).
 Proof.
   intros H. unfold sem. destruct (range_arith_env w ltac:(lia)) as [-> ->]. noteq w.
@@ -464,7 +464,7 @@ Proof.
   destruct (Z.leb_spec 128 w); [|lia]. destruct (Z.leb_spec w 143); [|lia]. reflexivity.
 Qed.
 Lemma sem_swap hash E Ib Id w y : 144 <= w <= 159 ->
-  sem hash E Ib Id w y = YNext (mkY (y_pc y + 1) (yswap (y_s y) (w - 143)) (y_m y) (y_i y)).
+  sem spec_op hash E Ib Id w y = YNext (mkY (y_pc y + 1) (yswap (y_s y) (w - 143)) (y_m y) (y_i y)).
 Proof.
   intros H. unfold sem. destruct (range_arith_env w ltac:(lia)) as [-> ->]. noteq w.
   destruct (Z.leb_spec 96 w); [|lia]. destruct (Z.leb_spec w 127); [lia|]. cbn [andb].
@@ -512,7 +512,7 @@ Section Sim.
   Hypothesis Hhash : forall l, word (hash l).
   Hypothesis Henv : forall k, word (env_get E k).
 
-  Notation ystep' := (ystep defined hash E c input).
+  Notation ystep' := (ystep spec_op defined hash E c input).
   Notation istep := (step impl_op valid_jumpdest hash E P c input).
 
   Definition Qsim (y : ystate) (res : stepres) : Prop :=
@@ -525,7 +525,7 @@ Section Sim.
   Lemma ystep_sem y dl al :
     defined (cur_op c (y_pc y)) = true -> delta_alpha (cur_op c (y_pc y)) = Some (dl, al) ->
     dl <= len (y_s y) -> len (y_s y) - dl + al <= 1024 ->
-    ystep' y = sem hash E c input (cur_op c (y_pc y)) y.
+    ystep' y = sem spec_op hash E c input (cur_op c (y_pc y)) y.
   Proof.
     intros Hd Hda H1 H2. unfold ystep. cbv zeta. rewrite Hd, Hda. cbn [negb].
     destruct (Z.ltb_spec (len (y_s y)) dl); [lia|].
@@ -562,7 +562,7 @@ Section Sim.
       set (opc := cur_op c (y_pc y)) in *.
       pose proof (decode_spec opc) as Hd.
       assert (Hsem : forall dl al, delta_alpha opc = Some (dl, al) ->
-                ystep' y = sem hash E c input opc y /\ dl <= zlen (s_stk st) /\ zlen (s_stk st) - dl + al <= 1024).
+                ystep' y = sem spec_op hash E c input opc y /\ dl <= zlen (s_stk st) /\ zlen (s_stk st) - dl + al <= 1024).
       { intros dl al Hda. rewrite Hda in Hrda. apply andb_true_iff in Hrda as [A B]. apply Z.eqb_eq in A, B.
         split; [|lia]. apply (ystep_sem y dl al); try assumption; rewrite Hlen; lia. }
       clear Hrda.
@@ -844,7 +844,7 @@ Section Sim.
         destruct (calc_mem_size mo l) as [sz ovf] eqn:Ec. destruct Hms as [-> Hwv].
         destruct (calc_facts mo l sz w ltac:(lia) ltac:(lia) Ec Hwv Hwb) as [Hl [Hl0 Hlp]].
         right. cbn [exec s_stk s_pc s_mem].
-        assert (Hsm : sem hash E c input 62 {| y_pc := pc; y_s := mo :: dof :: l :: r; y_m := ym; y_i := yi |} =
+        assert (Hsm : sem spec_op hash E c input 62 {| y_pc := pc; y_s := mo :: dof :: l :: r; y_m := ym; y_i := yi |} =
                       if 0 <? dof + l then YExc else YNext (mkY (pc + 1) r ym (Mx yi mo l))) by reflexivity.
         destruct (Z.ltb_spec dof U64) as [Hdu|Hdu]; cbn [negb].
         2:{ cbn [proj]. rewrite Hy, Hsm. destruct (Z.ltb_spec 0 (dof + l)); [reflexivity|change U64 with 18446744073709551616 in *; lia]. }
@@ -862,7 +862,7 @@ Section Sim.
         exfalso. apply Hk. reflexivity.
   Qed.
 
-  Notation yrun' := (yrun defined hash E c input).
+  Notation yrun' := (yrun spec_op defined hash E c input).
   Notation irun := (run impl_op valid_jumpdest hash E P c input).
 
   (* whole runs: by induction on the number of iterations *)
@@ -894,3 +894,26 @@ Section Sim.
     match proj (fst (irun fuel (init gas))) with Some r => yrun' fuel y0 = r | None => True end.
   Proof. apply run_sim. apply R_init. Qed.
 End Sim.
+
+(* ---- the Yellow-Paper machine only looks at the values of the word operations ---------------------------- *)
+
+Section YExt.
+  Variables w1 w2 : op -> Z -> Z -> Z -> Z.
+  Hypothesis Hw : forall o x y z, w1 o x y z = w2 o x y z.
+  Variable defined : Z -> bool.
+  Variable hash : list Z -> Z.
+  Variable E : env.
+  Variables Ib Id : list Z.
+
+  Lemma sem_ext w y : sem w1 hash E Ib Id w y = sem w2 hash E Ib Id w y.
+  Proof. unfold sem. destruct (arith_of w) as [[o a]|]; [rewrite !Hw; reflexivity|reflexivity]. Qed.
+
+  Lemma ystep_ext y : ystep w1 defined hash E Ib Id y = ystep w2 defined hash E Ib Id y.
+  Proof. unfold ystep. rewrite sem_ext. reflexivity. Qed.
+
+  Lemma yrun_ext fuel : forall y, yrun w1 defined hash E Ib Id fuel y = yrun w2 defined hash E Ib Id fuel y.
+  Proof.
+    induction fuel as [|k IH]; intros y; [reflexivity|]. cbn [yrun]. rewrite ystep_ext.
+    destruct (ystep w2 defined hash E Ib Id y); try reflexivity. apply IH.
+  Qed.
+End YExt.
